@@ -41,7 +41,11 @@ class Iter:
 
 
 class BreakEx(Exception):
-    pass
+    """`break` / `break value` (the value of the `loop` expression)"""
+
+    def __init__(self, v=None):
+        Exception.__init__(self)
+        self.v = v
 
 
 class ContinueEx(Exception):
@@ -414,7 +418,7 @@ class World:
                         env[k_] = env2[k_]
             return ("T", ())
         if k == "Break":
-            raise BreakEx()
+            raise BreakEx(self.eval(e["e"], env, uses) if e.get("e") is not None else None)
         if k == "Continue":
             raise ContinueEx()
         if k == "Array":
@@ -643,6 +647,16 @@ class World:
             return self.apply(args[1], [inner], uses) if is_some else self.apply(args[0], [], uses)
         if m == "or" and len(args) == 1:
             return recv if is_some else args[0]
+        if m == "ok_or" and len(args) == 1:
+            return S("Ok", inner) if is_some else S("Err", args[0])
+        if m == "ok_or_else" and len(args) == 1:
+            return S("Ok", inner) if is_some else S("Err", self.apply(args[0], [], uses))
+        if m == "and" and len(args) == 1:
+            return args[0] if is_some else NONE
+        if m == "flatten" and not args:
+            return inner if is_some else NONE
+        if m == "unwrap_or_default" and not args and is_some:
+            return inner
         if m == "is_some" and not args:
             return is_some
         if m == "is_none" and not args:
